@@ -292,6 +292,97 @@ def repeat_runs(ctx, tmp, cfgs, K, table, ref_hs):
     ctx.coverage["repeat_in_process"] = {"configurations": n, "child_processes": len(chunks), "differing": ndiff}
 
 
+# constructors that legitimately draw from the generator (established on the unchanged tree: none of the 15 algorithm constructors in
+# the grid does; Multimethod.__init__ calls select() -> roulette and InjectedPopulation-based warm starts evaluate before construction,
+# neither is part of this grid).  (alg, key) pairs listed here are excluded from the construct-then-seed mode.
+LATE_SEED_EXCLUDED = {}
+
+
+def late_seed_runs(ctx, tmp, cfgs, K, table, ref_hs):
+    """(ii-d) construct the algorithm FIRST, then seed, then run: must equal seed-construct-run (no randomness at construction time)"""
+    have = [i for i in range(len(cfgs)) if "T" in table.get(i, {}).get(ref_hs, {}) and not cfgs[i].get("userext")
+            and cfgs[i]["alg"] not in LATE_SEED_EXCLUDED]
+    chunks = [have[i:i + 8] for i in range(0, len(have), 8)]
+
+    def one(item):
+        ci, idxs = item
+        return spawn({"job": "replay", "configs": [cfgs[i] for i in idxs], "K": K, "T": [table[i][ref_hs]["T"] for i in idxs],
+                      "late_seed": 424242 + 1000 * ci}, tmp, "ls_%d" % ci, ref_hs)
+    outs = pmap(one, list(enumerate(chunks)))
+    n = ndiff = 0
+    drew = []
+    for (ci, idxs), o in zip(enumerate(chunks), outs):
+        if "error" in o:
+            ctx.obligation("child-run:late-seed(chunk=%d)" % ci, "harness", False, o["error"])
+            continue
+        for pos, (i, r) in enumerate(zip(idxs, o["runs"])):
+            fresh = table[i][ref_hs]
+            if "error" in r or "error" in fresh:
+                continue
+            n += 1
+            ctx.count()
+            cfg = cfgs[i]
+            if r.get("ctor_drew"):
+                drew.append(short(cfg))
+            if {k: r[k] for k in ("T", "sizes", "sig")} != {k: fresh[k] for k in ("T", "sizes", "sig")}:
+                ndiff += 1
+                ctx.violation("construct-then-seed-differs:%s:%s" % (cfg["alg"], cfg["vtype"]),
+                              "%s: constructing the algorithm, THEN random.seed(%d), then run(%d) gives a different result than seeding before construction "
+                              "(constructor drew from the generator: %s; first differing solution %s)" % (
+                                  short(cfg), cfg["seed"], r["T"], bool(r.get("ctor_drew")), first_diff(fresh["sig"]["result"], r["sig"]["result"])),
+                              {"kind": "late_seed", "config": cfg, "K": K, "T": r["T"], "late_seed": 424242 + 1000 * ci + pos})
+            else:
+                ctx.mark("late-seed|" + cfg_key(cfg))
+    ctx.coverage["construct_then_seed"] = {"configurations": n, "differing": ndiff, "constructors_that_drew_randomness": drew,
+                                           "excluded": LATE_SEED_EXCLUDED or "none (no constructor in the grid draws randomness on the unchanged tree; "
+                                                       "Multimethod.__init__ would, it is not in the grid; user-extension configurations are skipped)"}
+
+
+def cond_runs(ctx, tmp, cfgs, K, table, ref_hs):
+    """(iv) three consecutive run() calls with the budget as int / fresh MaxEvaluations / ONE shared MaxEvaluations object must agree exactly,
+    and (where composition is claimed) equal the single call"""
+    have = [i for i in range(len(cfgs)) if "sizes" in table.get(i, {}).get(ref_hs, {})]
+    chunks = [have[i:i + 8] for i in range(0, len(have), 8)]
+
+    def n_of(i):
+        sz = table[i][ref_hs]["sizes"]
+        return sum(sz[:2]) + (1 if i % 2 else 0)          # at / just above the second step boundary
+
+    def one(item):
+        ci, idxs = item
+        return spawn({"job": "conds", "configs": [cfgs[i] for i in idxs], "n": [n_of(i) for i in idxs]}, tmp, "cd_%d" % ci, ref_hs)
+    outs = pmap(one, list(enumerate(chunks)))
+    n = 0
+    stats = {"configurations": 0, "shared_object_differs": 0, "fresh_object_differs": 0, "three_calls_differ_from_single_claimed": 0}
+    for (ci, idxs), o in zip(enumerate(chunks), outs):
+        if "error" in o:
+            ctx.obligation("child-run:conds(chunk=%d)" % ci, "harness", False, o["error"])
+            continue
+        for i, r in zip(idxs, o["runs"]):
+            if "error" in r:
+                continue
+            cfg = cfgs[i]
+            stats["configurations"] += 1
+            ctx.count(4)
+            rp = {"kind": "conds", "config": cfg, "n": n_of(i)}
+            for mode, key in (("shared", "shared_object_differs"), ("fresh", "fresh_object_differs")):
+                if r[mode] != r["int"]:
+                    stats[key] += 1
+                    ctx.violation("consecutive-runs-with-%s-condition-object-differ:%s" % (mode, cfg["alg"]),
+                                  "%s: three consecutive run() calls with budget %d: passing %s ends at nfe %d after steps %r, run(int) at nfe %d after steps %r" % (
+                                      short(cfg), n_of(i), "the SAME MaxEvaluations object" if mode == "shared" else "a new MaxEvaluations object per call",
+                                      r[mode]["sig"]["nfe"], r[mode]["sizes"], r["int"]["sig"]["nfe"], r["int"]["sizes"]), rp)
+            flat = [x for c in r["int"]["sizes"] for x in c]
+            if claimed(cfg) and (r["single"]["sig"] != r["int"]["sig"] or flat != r["single"]["sizes"]):
+                stats["three_calls_differ_from_single_claimed"] += 1
+                ctx.violation("consecutive-runs-do-not-compose:%s:%s" % (cfg["alg"], cfg["vtype"]),
+                              "%s: three run(%d) calls (steps %r) differ from the single run(%d) (steps %r)" % (
+                                  short(cfg), n_of(i), r["int"]["sizes"], r["single"]["F"], r["single"]["sizes"]), rp)
+            elif r["shared"] == r["int"]:
+                ctx.mark("conds|" + cfg_key(cfg))
+    ctx.coverage["condition_objects"] = stats
+
+
 # ----------------------------------------------------------------------------
 # (iii) save at every step boundary, load in a new process, continue
 # ----------------------------------------------------------------------------
@@ -412,6 +503,8 @@ def run(ctx):
         index = {cfg_key(c): i for i, c in enumerate(rcfgs)}
         history_runs(ctx, tmp, rcfgs, K, table, hashseeds[0])
         repeat_runs(ctx, tmp, rcfgs, K, table, hashseeds[0])
+        late_seed_runs(ctx, tmp, rcfgs, K, table, hashseeds[0])
+        cond_runs(ctx, tmp, rcfgs, K, table, hashseeds[0])
         # quick: every algorithm with a rotating subset of its variable types (+ all variants); thorough: everything
         if ctx.thorough:
             sel = cfgs
@@ -475,6 +568,21 @@ def replay(ctx, data):
                 ctx.violation(data.get("key", "replay"), "replay: %s after %d earlier runs differs from the fresh-interpreter run (%s)" % (
                     short(cfg), len(rp["history"]), fresh.get("error") or after.get("error") or
                     first_diff(fresh["runs"][0].get("sig", {}).get("result", []), after["runs"][0].get("sig", {}).get("result", []))), rp)
+        elif rp.get("kind") == "late_seed":
+            cfg = rp["config"]
+            fresh = spawn({"job": "replay", "configs": [cfg], "K": rp["K"], "T": [rp["T"]]}, tmp, "fr", "0")
+            late = spawn({"job": "replay", "configs": [cfg], "K": rp["K"], "T": [rp["T"]], "late_seed": rp["late_seed"]}, tmp, "ls", "0")
+            ctx.count(2)
+            if "error" in fresh or "error" in late or fresh["runs"][0].get("sig") != late["runs"][0].get("sig"):
+                ctx.violation(data.get("key", "replay"), "replay: %s construct-then-seed differs from seed-then-construct" % short(cfg), rp)
+        elif rp.get("kind") == "conds":
+            o = spawn({"job": "conds", "configs": [rp["config"]], "n": [rp["n"]]}, tmp, "cd", "0")
+            ctx.count(4)
+            r = o.get("runs", [{"error": o.get("error")}])[0]
+            if "error" in r or r["shared"] != r["int"] or r["fresh"] != r["int"] or (claimed(rp["config"]) and r["single"]["sig"] != r["int"]["sig"]):
+                ctx.violation(data.get("key", "replay"), "replay: %s three consecutive run(%d): int %s / fresh %s / shared %s / single %s" % (
+                    short(rp["config"]), rp["n"], r.get("int", {}).get("sizes"), r.get("fresh", {}).get("sizes"), r.get("shared", {}).get("sizes"),
+                    r.get("single", {}).get("sizes")), rp)
         elif rp.get("kind") == "repeat":
             cfg = rp["config"]
             pre = list(rp.get("preceding", []))
